@@ -3,12 +3,17 @@ CONSTANTS
   MaxFiles = 2
   Trees <- TreesGen
   Ws = {1}
-  FlagSets <- AllFlags
+  FlagSets <- RootFlags
   Mutex = TRUE
   ErrsCloser = "postgen"
   MainReadsErrs = TRUE
   GenVariants = {1}
   SlotRelease = "deferred"
+  TargetRule = "trimsuffix"
+  WalkRule = "filesonly"
+  OrphanStat = "fileonly"
+  RootRule = "exempt"
+  RootTrees <- TreesRoot
   SkipRule = "coded"
   TwoRuns = TRUE
   EmitCases = TRUE
